@@ -44,24 +44,15 @@ def count_digits(number: NumericValueType) -> tuple[int, int]:
     else:
         number = str(number).lstrip('-+')
 
-    if 'E' in number:
-        significand, _, _exponent = number.partition('E')
-    elif 'e' in number:
-        significand, _, _exponent = number.partition('e')
-    elif '.' not in number:
+    if 'E' in number or 'e' in number:
+        # Use the fixed-point notation, that has no exponent
+        number = format(Decimal(number), 'f')
+
+    if '.' not in number:
         return len(number.lstrip('0')), 0
     else:
         integer_part, _, decimal_part = number.partition('.')
         return len(integer_part.lstrip('0')), len(decimal_part.rstrip('0'))
-
-    significand = significand.strip('0')
-    exponent = int(_exponent)
-
-    num_digits = len(significand) - 1 if '.' in significand else len(significand)
-    if exponent > 0:
-        return num_digits + exponent, 0
-    else:
-        return 0, num_digits - exponent - 1
 
 
 def strictly_equal(obj1: object, obj2: object) -> bool:
